@@ -1073,6 +1073,8 @@ impl Model {
                 "data": a.data.iter().map(|(s, d)| json!([self.set_name(*s), self.data_name(*s, *d)])).collect::<Vec<_>>(),
                 "textselections": tsel,
                 "text": self.ann_text(a),
+                "resources": self.sel_resources(&a.target, false, 0).into_iter().map(|r| self.res_name(r)).collect::<Vec<_>>(),
+                "resources_as_metadata": self.sel_resources(&a.target, true, 0).into_iter().map(|r| self.res_name(r)).collect::<Vec<_>>(),
             });
             if with_handles {
                 o["h"] = json!(a.handle);
@@ -1082,6 +1084,39 @@ impl Model {
         let mut out = json!({"resources": resources, "datasets": datasets, "annotations": annotations});
         if with_lookups {
             out["lookups"] = self.lookups();
+        }
+        out
+    }
+
+    /// resources an annotation refers to through text selectors (or, `meta`, through resource selectors), following annotation
+    /// selectors to the annotations they point at (documented: "by its target selector", no duplicates)
+    pub fn sel_resources(&self, s: &MSel, meta: bool, depth: usize) -> BTreeSet<usize> {
+        let mut out = BTreeSet::new();
+        if depth > 32 {
+            return out;
+        }
+        match s {
+            MSel::Text { res, .. } => {
+                if !meta {
+                    out.insert(*res);
+                }
+            }
+            MSel::Res(r) => {
+                if meta {
+                    out.insert(*r);
+                }
+            }
+            MSel::Ann { ann, .. } => {
+                if let Some(t) = self.anns.get(ann) {
+                    out.extend(self.sel_resources(&t.target, meta, depth + 1));
+                }
+            }
+            MSel::Multi(v) | MSel::Composite(v) | MSel::Directional(v) => {
+                for m in v {
+                    out.extend(self.sel_resources(m, meta, depth + 1));
+                }
+            }
+            _ => {}
         }
         out
     }
